@@ -331,6 +331,8 @@ pub fn plan(tier: Tier) -> Plan {
   }
   ops.push(Op1::BufferWithCountAndTime(1, 2));
   ops.push(Op1::BufferWithCountAndTime(3, 1));
+  // "cut by time only"
+  ops.push(Op1::BufferWithCountAndTime(usize::MAX, 1));
   let mut jobs = vec![];
   for op in &ops {
     jobs.push(rate_job(op.clone(), Form::Local, len0, 0));
